@@ -3,9 +3,9 @@
 # Confirms the change in a scratch worktree (builds, pinned suite passes), then applies it to /repo, runs the
 # check, and restores /repo. Prints one summary line.
 set -u
-dir=$1; id=$2; tier=${3:-quick}
+dir=$(cd "$1" && pwd); id=$2; tier=${3:-quick}
 export GOFLAGS=-mod=mod GOPROXY=off
-name=$(basename "$(dirname "$dir")")-$(basename "$dir")
+name=$(basename "$dir")
 if ! git -C /repo diff --quiet; then echo "$name: /repo is not clean"; exit 2; fi
 wt=$(mktemp -d /tmp/seedconfirm.XXXX)
 git -C /repo worktree add --detach "$wt" HEAD >/dev/null 2>&1
